@@ -101,6 +101,9 @@ class State:
         return self.heap[key]
 
     def load(self, ref, key: str, t: sym.T) -> SV:
+        log = self.ghost.get("load_log")
+        if log is not None:
+            log[key] = t  # (dry run of a recursive spec function: which heap fields does its body read?)
         if isinstance(t, TDict):
             parts = {}
             for p, ps in _dict_parts(t).items():
